@@ -944,6 +944,7 @@ static void do_start(int h)
   const char *prog = "vc";
   char flags[128] = "";
   int argvnull = 0, usewd = 0, rfile = 0, rpath = 0, want_ident = 0, nofile = 0, hlow = 0;
+  const char *inchild = NULL;
   const char *runex = NULL, *argvx = NULL, *envx = NULL, *wdx = NULL, *progx = NULL;
   const char *pathmode = NULL, *handlemode = NULL;
   long inputsz = -1;
@@ -1000,6 +1001,7 @@ static void do_start(int h)
     else if ((v = kv(t, "ident"))) want_ident = atoi(v);
     else if ((v = kv(t, "pathmode"))) pathmode = v;
     else if ((v = kv(t, "handlemode"))) handlemode = v;
+    else if ((v = kv(t, "inchild"))) inchild = v;
     else if ((v = kv(t, "hin"))) o.redirect.in.handle = atoi(v) ? -2 : 0;
     else if ((v = kv(t, "hout"))) o.redirect.out.handle = atoi(v) ? -2 : 0;
     else if ((v = kv(t, "herr"))) o.redirect.err.handle = atoi(v) ? -2 : 0;
@@ -1148,6 +1150,30 @@ static void do_start(int h)
   if (r == 0 && w_side == 1) {
     // child side of a fork-mode start: only destroy is allowed; then act as the helper
     W->inchild_ret = 0;
+    if (inchild) {
+      // the handle is in the "child side of a fork" state: every call must say so, none may act
+      uint8_t b[8];
+      reproc_event_source src = { c->p, REPROC_EVENT_OUT | REPROC_EVENT_EXIT, 0 };
+      reproc_options o2 = { 0 };
+      for (const char *q = inchild; *q && W->inchild_n < 12; q++) {
+        int v = -9999;
+        switch (*q) {
+          case 'S': v = reproc_start(c->p, argv, o2); break;
+          case 'F': o2.fork = true; v = reproc_start(c->p, NULL, o2); o2.fork = false; break;
+          case 'W': v = reproc_wait(c->p, 0); break;
+          case 'P': v = reproc_pid(c->p); break;
+          case 'T': v = reproc_terminate(c->p); break;
+          case 'K': v = reproc_kill(c->p); break;
+          case 'R': v = reproc_read(c->p, REPROC_STREAM_OUT, b, sizeof b); break;
+          case 'O': v = reproc_write(c->p, b, 1); break;
+          case 'C': v = reproc_close(c->p, REPROC_STREAM_IN); break;
+          case 'L': v = reproc_poll(&src, 1, 0); break;
+          case 'Z': v = reproc_stop(c->p, (reproc_stop_actions){ { REPROC_STOP_WAIT, 0 }, { 0 }, { 0 } }); break;
+        }
+        W->inchild_res[W->inchild_n] = v;
+        W->inchild_n = W->inchild_n + 1;
+      }
+    }
     reproc_t *d = reproc_destroy(c->p);
     W->inchild_done = d == NULL ? 1 : 2;
     char sp[800];
@@ -1678,15 +1704,24 @@ static void run_script(void)
   }
 }
 
+static const char *inchild_list(void)
+{
+  static char b[200];
+  b[0] = 0;
+  for (int i = 0; i < W->inchild_n && i < 12; i++)
+    snprintf(b + strlen(b), sizeof b - strlen(b), "%s%d", i ? "," : "", W->inchild_res[i]);
+  return b;
+}
+
 static void finish_case(void)
 {
   w_cur_op = -1;
   fprintf(L, "{\"fin\":1,\"vt\":%lld,\"hang\":%d,\"badtarget\":%d,\"foreign_close\":%d,"
              "\"double_close\":%d,\"unknown_free\":%d,\"live_allocs\":%d,\"overflow\":%u,"
-             "\"inchild_done\":%d,\"ntr\":%u,\"runaway\":\"%s\",",
+             "\"inchild_done\":%d,\"ntr\":%u,\"runaway\":\"%s\",\"inchild\":[%s],",
           (long long) w_vnow, g_hang, W->n_badtarget, W->n_foreign_close, W->n_double_close,
           W->n_unknown_free, wrap_live_allocs(), W->overflow, W->inchild_done, W->ntr,
-          W->runaway ? wfn_name[W->runaway - 1] : "");
+          W->runaway ? wfn_name[W->runaway - 1] : "", inchild_list());
   int fds[64];
   int n = wrap_owned_fds(fds, 64);
   fprintf(L, "\"owned_fds\":[");
